@@ -569,6 +569,9 @@ macro_rules! shape_step {
 shape_step!(shape_q_add_b_to_a, RAB, src = [true, false], dst = [true, true], add B, n1 = 3, n2 = 1, cap2 = 1, s = 4, f = 0);
 shape_step!(shape_t_add_w_dbwa, RDBWA, src = [true, true, false, true], dst = [true, true, true, true], add W, n1 = 2, n2 = 0, cap2 = 0, s = 2, f = 0);
 shape_step!(shape_t_add_d_azd, RAZD, src = [true, true, false], dst = [true, true, true], add D, n1 = 1, n2 = 2, cap2 = 3, s = 3, f = 0);
+// a zero-sized component (size 0, align 1) and D (size 2, align 1) sit in the packed buffer before the
+// added component's position is reached: a cursor advanced by anything but size_of shows
+shape_step!(shape_q_add_a_before_zd, RAZD, src = [false, true, true], dst = [true, true, true], add A, n1 = 2, n2 = 0, cap2 = 0, s = 2, f = 0);
 shape_step!(shape_t_add_a_first, RAZD, src = [false, false, true], dst = [true, false, true], add A, n1 = 2, n2 = 1, cap2 = 1, s = 3, f = 0);
 // remove
 shape_step!(shape_q_rm_d_azd, RAZD, src = [true, true, true], dst = [true, true, false], remove D, n1 = 2, n2 = 1, cap2 = 1, s = 3, f = 0);
